@@ -64,7 +64,14 @@ def shrink_phase(rep, exe_impl, exe_model):
     if not cases:
         return False, 0, 0
     f, v = wk.run_cases(rep, exe_impl, None, cases, ["shrunk", "fault_reported"], what="shrinking source")
-    return f, v, len(cases)
+    # "nothing is added to the store - no empty or partial file and no empty directories" when the copy is given up
+    # because a call fails: every call of the copy of a file, of a history file and of a file whose name is taken fails
+    # in turn (close of the new version included)
+    fcases = wk.enumerate_cases(exe_impl, rep.tier, "fault", rep.seed, only=["drain_one", "drain_history_offset", "drain_collision"])
+    if not f:
+        f2, v2 = wk.run_cases(rep, exe_impl, exe_model, fcases, ["no_partial", "fault_reported"], what="abandoned copy")   # (empty directories after a failing mkdir are not C05's business: it speaks of the SOURCE's conditions)
+        f, v = f or f2, v + v2
+    return f, v, len(cases) + len(fcases)
 
 
 def gen_policy_change_case(rng):
@@ -134,7 +141,7 @@ def main(rep):
                            "driver runs unprivileged); monitors: every new version equals its source byte for byte (length + hash), an abandoned copy leaves no "
                            "file and no empty directory, journal labels stored/deleted/forbidden match what appeared; a source truncated by another process at a sendfile boundary (implementation only): the version is a prefix of what the source held; plus append histories of a history path (slices of 0-60 bytes, several versions inside one "
                            "timestamp, restarts): the versions in order concatenate to the file up to the remembered position; plus a path whose policy changes between history and ordinary "
-                           "by a reload and which is then rewritten as a whole"))
+                           "by a reload and which is then rewritten as a whole; plus every single failing call of three passes (a reported failure of the copy must not leave the file it was writing)"))
 
 
 def replay(rep, path):
